@@ -514,10 +514,10 @@ def run(ck):
     ck.log((out.strip() or err.strip())[-300:])
     translator_ok = rc == 0
     if translator_ok:
-        proof_ok, failing = ck.proof_stage('MpVerif.C04.Props', 'MpVerif/C04/Props.lean', 'C04_', ['MpVerif/C04/*.lean', 'MpVerif/Gen/ValCvt.lean'], expect_min=49)
+        proof_ok, failing = ck.proof_stage('MpVerif.C04.Props', 'MpVerif/C04/Props.lean', 'C04_', ['MpVerif/C04/*.lean', 'MpVerif/Gen/ValCvt.lean'], expect_min=56)
     else:
         proof_ok, failing = False, ['translator: ' + (out + err).strip()[-400:]]
-        ck.cov.update({'obligations': 49, 'discharged': 0, 'checker_cmd': 'translators/gen_valcvt.py failed: a construct of the anchored code is no longer understood'})
+        ck.cov.update({'obligations': 56, 'discharged': 0, 'checker_cmd': 'translators/gen_valcvt.py failed: a construct of the anchored code is no longer understood'})
     ck.log('proof stage: ok=%s failing=%s' % (proof_ok, failing[:8]))
     if ck.tier == 'thorough' and proof_ok:
         bad = ck.leanchecker(['MpVerif.C04.Props'])
@@ -596,6 +596,15 @@ def gen_case(rng, d, feat, exe):
     c.options.append('alg:iisfind=1')
     ws = rng.choice([0, 1, 1, 2])
     c.options.append('alg:start=%d' % ws)
+    c.round = None
+    if rng.chance(1, 3):          # mip:round: the documented post-processing of the returned primal values
+        c.round = rng.rint(0, 7)
+        c.options.append('mip:round=%d' % c.round)
+        if rng.chance(5, 6):
+            c.ismip = 1
+        if rng.chance(5, 6):
+            c.code = 0
+        feat['opt_round_%d' % c.round] = feat.get('opt_round_%d' % c.round, 0) + 1
     c.sens = rng.chance(1, 3)
     if c.sens:
         c.options.append('alg:sens=1')
@@ -651,6 +660,7 @@ def gen_case(rng, d, feat, exe):
     m.write(c.stub)
     c.model = m
     c.rng = rng
+    c.isint = [1 if m.vars[j]['int'] else 0 for j in m.perm]      # integrality of the original variables in NL order
     return c
 
 
@@ -684,8 +694,19 @@ def gen_answer(c, st):
         s['pi'] = rvec_dbl(rng, rlen(rng, nlin, feat, 'pi'))
         if nquad and rng.chance(1, 2):
             s['piq'] = rvec_dbl(rng, rlen(rng, nquad, feat, 'piq'))
+    if nquad and rng.chance(1, 3):
+        # directed: the FIRST constraint group of the dual map is empty, a later one has values (ValueMap::Empty must look at all groups)
+        s['pi'] = []
+        s['piq'] = [v if v != 0 else F(1) for v in rvec_dbl(rng, nquad)]
+        feat['dual_first_group_empty'] = feat.get('dual_first_group_empty', 0) + 1
     if rng.chance(1, 2):
         s['obj'] = rvec_dbl(rng, nobj)
+    if getattr(c, 'round', None) is not None and s.get('x'):
+        # integer variables slightly off integrality (dyadic offsets, halfway cases included)
+        for j in range(min(len(c.isint), len(s['x']))):
+            if c.isint[j] and rng.chance(3, 4):
+                s['x'][j] = F(rng.rint(-6, 9)) + rng.choice([F(1, 8), F(-1, 8), F(1, 4), F(-1, 4), F(1, 2), F(-1, 2), F(1, 1024), F(-1, 1024), F(3, 8), F(0)])
+                feat['round_offintegral_values'] = feat.get('round_offintegral_values', 0) + 1
     if rng.chance(3, 4):
         s['varstt'] = rvec_int(rng, rlen(rng, nv, feat, 'varstt'), [0, 1, 2, 3, 3, 4, 4, 5, 6])
         s['constt'] = rvec_int(rng, rlen(rng, nlin, feat, 'constt'), [0, 1, 2, 3, 3, 4, 4, 5, 6])
@@ -940,6 +961,9 @@ def model_replay(ck, drv, cases, st):
             clamp = nid('dest_vars()') if f.clamp else None
             ops.append(call_line(f.dir, f.kind, inputs, outs, clamp))
             plan.append((c, 'flow', f))
+        rnd = getattr(c, 'round', None) or 0
+        ops.append('roundlast %d %d %d %d %s' % (rnd, c.ismip, 1 if solved_or_feasible(c.script.get('code', 0)) else 0, nid('src_vars()'), ' '.join(map(str, getattr(c, 'isint', [])))))
+        plan.append((c, 'roundlast', None))
     ops.append('arms report')
     plan.append((None, 'arms', None))
     opf = os.path.join(BUILD, 'c04', 'ops.txt')
@@ -966,6 +990,9 @@ def model_replay(ck, drv, cases, st):
             c.model_wf = line
         elif what == 'wf2':
             c.model_wf2 = line
+        elif what == 'roundlast':
+            t = line.split()
+            c.model_round = (int(t[1]), [F(v) for v in t[2:]]) if t and t[0] == 'round' else None
         elif what == 'trace':
             c.traces[payload] = line[6:] if line.startswith('trace ') else line
         elif what == 'flow':
@@ -1065,6 +1092,11 @@ def compare_flow(c, f):
 
 
 # --------------------------------------------------------------------------- property oracle on the real outputs
+def solved_or_feasible(code):
+    """StdBackend::IsProblemSolvedOrFeasible (solve-code classes, C10)"""
+    return 0 <= code <= 99 or 300 <= code <= 349 or 400 <= code <= 449
+
+
 def setnum(cur, v):
     """ValueNode::SetNum"""
     if cur != 0:
@@ -1316,6 +1348,35 @@ def oracle(ck, c, st):
     if sol is None:
         return
     ev, ec = expect_post('sol', x, s.get('pi'), n, matches)
+    # mip:round: values may be changed only if bit 1 of the option is set, on a MIP with a solved/feasible result, and only integer variables
+    rnd = getattr(c, 'round', None) or 0
+    applies = rnd != 0 and c.ismip == 1 and solved_or_feasible(s.get('code', 0))
+    nround = 0
+    if applies and x:
+        isint = getattr(c, 'isint', [])
+        for j in range(min(len(ev), len(isint))):
+            if isint[j]:
+                v = ev[j]
+                y = F(int(v + F(1, 2) if v >= 0 else v - F(1, 2))) if True else v
+                if v >= 0:
+                    y = F((v + F(1, 2)).__floor__())
+                else:
+                    y = -F((-v + F(1, 2)).__floor__())
+                if y != v:
+                    nround += 1
+                    if rnd & 1:
+                        ev[j] = y
+    msg = sol.get('message', '')
+    if applies and x and nround and (rnd & 4):
+        want = '%d integer variable%s %srounded to integer%s' % (nround, 's' if nround > 1 else '', '' if rnd & 1 else 'would be ', 's' if nround > 1 else '')
+        if want not in msg:
+            bad('sol:round-message', 'mip:round=%d, %d integer variable(s) off integrality: the solve message does not contain "%s": %r' % (rnd, nround, want, msg[-200:]), None)
+        else:
+            chk('sol_round_message_ok')
+    elif 'rounded to integer' in msg:
+        bad('sol:round-message-unexpected', 'mip:round=%d: unexpected rounding message %r' % (rnd, msg[-200:]), None)
+    if applies and x:
+        chk('sol_round_%s' % ('assign' if rnd & 1 else 'report_only'))
     prim = [F(t.strip()) for t in sol['primal']]
     if not x:
         if prim:
@@ -1323,7 +1384,7 @@ def oracle(ck, c, st):
         else:
             chk('sol_no_primal_ok')
     elif prim != ev:
-        bad('sol:primal', '.sol primal %s, solver assigned %s' % ([str(t) for t in prim], [str(t) for t in ev]), None)
+        bad('sol:primal' + (':round%d' % rnd if rnd else ''), '.sol primal %s, solver assigned %s%s' % ([str(t) for t in prim], [str(t) for t in ev], ' (mip:round=%d: only integer variables may be rounded, and only if bit 1 is set)' % rnd if rnd else ''), None)
     else:
         chk('sol_primal_ok')
     dual = [F(t.strip()) for t in sol['dual']]
@@ -1647,6 +1708,8 @@ def case_from_replay(obj, d):
         c.script['extra'] = {k: [F(t) for t in v] for k, v in c.script['extra'].items()}
     c.sens = 'alg:sens=1' in c.options
     c.writegraph = bool(obj.get('writegraph'))
+    c.isint = obj.get('isint', [])
+    c.round = obj.get('round')
     if c.script.get('iiscong'):
         c.script['iiscong'] = {int(g): [F(t) for t in v] for g, v in c.script['iiscong'].items()}
     c.calls = []
@@ -1689,7 +1752,7 @@ def replay_obj(c):
     o = {'nl': open(c.stub + '.nl').read(), 'accept': c.accept, 'options': c.options, 'ismip': c.ismip,
          'script': {k: sv(v) for k, v in getattr(c, 'script', {}).items()}, 'calls': calls,
          'n_vars': len(c.model.vars), 'n_cons': len(c.model.cons), 'n_lcons': len(c.model.lcons), 'n_objs': len(c.model.objs),
-         'nl_cons': nl_cons_of(c), 'shared': shared_items_of(c), 'writegraph': bool(getattr(c, 'writegraph', False)),
+         'nl_cons': nl_cons_of(c), 'shared': shared_items_of(c), 'writegraph': bool(getattr(c, 'writegraph', False)), 'isint': getattr(c, 'isint', []), 'round': getattr(c, 'round', None),
          'how': 'save this object as a file and run ./check C04 --replay <file>'}
     for ext in ('col', 'row'):
         if os.path.exists(c.stub + '.' + ext):
@@ -1769,6 +1832,8 @@ def verdicts(ck, cases, st, proof_ok, failing):
             prim = [F(t.strip()) for t in c.sol['primal']]
             dual = [F(t.strip()) for t in c.sol['dual']]
             mv = fm.get(c.nid('src_vars()'), [])
+            if getattr(c, 'model_round', None) is not None:
+                mv = c.model_round[1]          # the model's mip:round post-processing of its own postsolved vector
             mc = fm.get(c.nid('src_cons()'), [])[:len(c.model.cons)]
             x = c.script.get('x')
             have_dual = bool(c.script.get('pi')) or bool(c.script.get('piq'))
